@@ -250,6 +250,7 @@ func typedTargeted(repU *Report, wU *CaseWriter, r *rand.Rand) {
 			}
 		}
 		wU.add(fmt.Sprintf("UnmarshalCase %s %s %s %s %s %s %s", coqOpts(false, false, false), reg, tyS, "(zero "+tyS+")", coqTokens(p.ts), floatTable(p.ts), uobs(back, eU)), desc, true)
+		tapOracle(repU, p.t, p.ts, back, eU, desc)
 		if p.t == anyType {
 			// C11 on the canonical streams among the hand-made ones (in the domain, keys ascending): must be
 			// accepted and lossless; the others are decided by the model (rejection with the stated error)
